@@ -7,12 +7,15 @@ TECH="contract-based deductive verification: //@ contracts on the real functions
 BASE="Trusted: go/ssa+go/types (x/tools v0.29.0) as the semantics of the source; z3/cvc5 for unsat; contracts marked `trusted`/`extern` (listed in the evidence trusted_base); mathematical integers; sequential semantics; user callbacks modelled as arbitrary (may return anything / panic with anything where the contract says maypanic). Abstractions applied per function are listed in the evidence."
 claimed={
  "C01":("Kernel only. Deductive contracts on the plan-time static/dynamic argument split (valueHasVariables, astHasVariables, planArguments: a variable anywhere in an argument forces per-request coercion) and call-site obligations of the planned execution walk (executePlannedSelection resolves only planned fields with a field definition; abstract values continue with the plan of the runtime type). Collection/merging of selections and directive predicates are not yet under contract.","DESIGN.md §4 C01"),
- "C03":("Lexer half proved: every lexer function carries pre/postconditions, loop invariants, variants and an `assigns nothing` frame against the lexical grammar transcribed as recursive spec functions (token kind, start, end, value span, and when lexing must fail), for all byte strings. The parser productions are not yet under contract.","DESIGN.md §4 C03"),
+ "C02":("Kernel only. Deductive contracts on what the rules rest on: the type relations (isEqualType, isTypeSubTypeOf, GetNullable against their recursive specification), the two memo tables of the overlapping-fields rule (a memo hit is returned exactly when the pair was recorded at least as strictly), and type tracking (TypeInfo.Enter pushes, per node kind, exactly the stacks and the input types the validation rules read). The 24 rule visitors themselves are not under contract.","DESIGN.md §4 C02"),
+ "C03":("Lexer proved: every lexer function carries pre/postconditions, loop invariants, variants and an `assigns nothing` frame against the lexical grammar transcribed as recursive spec functions (token kind, start, end, value span, and when lexing must fail), for all byte strings. Parser: the token-stream helpers (advance, skip, expect, expectKeyWord, peek, loc, unexpected), parseName/parseNamed and parseType are under contract (with the lexer as an arbitrary callback); the other productions are not yet.","DESIGN.md §4 C03"),
  "C04":("Deductive contracts on the functions that decide well-formedness under adversarial resolvers: coerceInt (nil or 32-bit int for every dynamic type incl. NaN/float32 rounding), completeLeafValue (non-nil leaf is never nullish), handleFieldError (non-null re-panics, nullable appends exactly one error), resolvePlannedField (a failed field returns nil, never the raw value; resolver may panic with anything), completePlannedAbstractValue (the runtime type was checked to be a possible type on every path that continues), ResponsePath.","DESIGN.md §4 C04"),
  "C05":("Kernel: coerceInt as Int.ParseValue (accepts exactly the conformant values of every numeric Go type, rejects out-of-range) and the plan-time argument split (no variable-bearing argument is pre-coerced without variables). Variable coercion of lists/input objects is not yet under contract.","DESIGN.md §4 C05"),
  "C06":("Kernel: resolvePlannedField hands every resolver a fresh argument map (never the plan's static map), proved as a call-site obligation; plan-time split contracts shared with C01/C05. Cache key / LRU contracts not yet written.","DESIGN.md §4 C06"),
+ "C11":("Kernel. isEqualType / isTypeSubTypeOf proved against the covariance/invariance specification; assertObjectImplementsInterface proved (loop-iteration postconditions) to have checked, for every interface field it accepts, the covariant result type and that every additional object-field argument is nullable; Schema.AppendType proved to re-link implementations on every successful path. typeMapReducer and the constructors are not yet under contract.","DESIGN.md §4 C11"),
+ "C14":("Type-tracking part only: TypeInfo.Enter is proved, per node kind, to push exactly one entry on exactly the stacks Leave pops, and the pushed input type is the list item type / the input-object field type of the (unwrapped) enclosing input type. visitor.Visit itself (reflection-driven) is outside the verifier's reach and not claimed.","DESIGN.md §4 C14"),
  "C17":("All five start handlers, the finish-handler closures and addExtensionResults are proved not to exit by panic for any number of extensions whose hooks may panic with a value of any dynamic type; Do and ExecutePlan are proved to call the finish handler of every started phase on every return path (call-count obligations at each return).","DESIGN.md §4 C17"),
- "C18":("Token Start/End offsets and every lexer call of NewSyntaxError are proved to carry the byte offset of the offending lexeme; NewLocatedErrorWithPath / ResponsePath contracts prove that the path attached to a field error is the key sequence of that field (WithKey/AsArray, list indices as call-site obligations). GetLocation's line/column arithmetic and parser error sites are not yet under contract.","DESIGN.md §4 C18"),
+ "C18":("Token Start/End offsets and every lexer call of NewSyntaxError are proved to carry the byte offset of the offending lexeme; NewLocatedErrorWithPath / ResponsePath contracts prove that the path attached to a field error is the key sequence of that field (WithKey/AsArray, list indices as call-site obligations). GetLocation's line/column arithmetic is proved against the match list of the line-terminator pattern (FindAllIndex assumed to return the terminators); expect/expectKeyWord/unexpected are proved to report the current token's start.","DESIGN.md §4 C18"),
  "C20":("Call-site obligations on every callback invocation of the planned execution walk: resolvePlannedField passes Source, Context, Args (fresh), FieldName, FieldASTs, Path, ReturnType, ParentType, RootValue, Operation, VariableValues exactly as specified; list elements are completed with path.WithKey(i); object/abstract completion passes the value, the runtime type and the plan of the runtime type; IsTypeOf/ResolveType receive the value and the caller's context.","DESIGN.md §4 C20"),
 }
 na_reasons={
